@@ -227,7 +227,15 @@ pub enum Op {
         #[serde(default)]
         in_place: bool,
     },
-    Consume { src: usize, cons: Cons, operand: Vec<u64> },
+    Consume {
+        src: usize,
+        cons: Cons,
+        operand: Vec<u64>,
+        /// dividend derived from the divisor n instead of `operand`: 1 = n-1, 2 = 2n-1, 3 = n, 4 = n+1, 5 = (n << k) - 1
+        /// (all wrapping at the carrier width) — the neighbourhood of multiples of the divisor
+        #[serde(default)]
+        rel: u8,
+    },
 }
 
 #[derive(Clone, Debug, Serialize, Deserialize)]
@@ -1057,15 +1065,31 @@ fn exec(plan: &Plan, out: &mut RunOut) {
                     _ => {}
                 }
             }
-            Op::Consume { src, cons, operand } => {
+            Op::Consume { src, cons, operand, rel } => {
                 if pool.is_empty() {
                     continue;
                 }
                 let i = src % pool.len();
+                // dividend relative to the divisor (as integers of the carrier width, wrapping)
+                let rel_words = |nw: &[u64]| -> Vec<u64> {
+                    let w = nw.len();
+                    let modulus = num_bigint::BigUint::from(1u8) << (64 * w);
+                    let n = crate::util::big(nw);
+                    let one = num_bigint::BigUint::from(1u8);
+                    let v = match rel {
+                        1 => &n - &one,
+                        2 => &n * 2u32 - &one,
+                        3 => n.clone(),
+                        4 => &n + &one,
+                        5 => (&n << (operand.first().copied().unwrap_or(0) % (64 * w as u64)) as usize) + &modulus - &one,
+                        _ => crate::util::big(operand),
+                    };
+                    crate::util::words(&(v % &modulus), w)
+                };
                 macro_rules! nzc {
                     ($n:expr, $nz:expr) => {{
-                        let x = uint_of::<$n>(operand);
                         let nz = $nz;
+                        let x = uint_of::<$n>(&rel_words(&nz.as_ref().to_words()));
                         match cons {
                             Cons::DivRem => guard(|| {
                                 let _ = x.div_rem(&nz);
@@ -1122,7 +1146,11 @@ fn exec(plan: &Plan, out: &mut RunOut) {
                     }
                     W::NzB(n) => {
                         let n = n.clone();
-                        let x = BoxedUint::from_words(operand.iter().copied()).widen(n.bits_precision().max(64 * operand.len() as u32));
+                        let x = if *rel == 0 {
+                            BoxedUint::from_words(operand.iter().copied()).widen(n.bits_precision().max(64 * operand.len() as u32))
+                        } else {
+                            BoxedUint::from_words(rel_words(&n.as_ref().to_words()))
+                        };
                         let n = n.widen(x.bits_precision());
                         guard(move || {
                             let _ = x.div_rem(&n);
@@ -1389,6 +1417,7 @@ impl TypedScenario for Pool {
                     src: r.below(64) as usize,
                     cons: *r.pick(&[Cons::DivRem, Cons::Rem, Cons::DivOp, Cons::RemOp, Cons::DivRemVartime, Cons::MontyNew, Cons::MontyNewVartime, Cons::InvOddMod, Cons::NzRefThenDivide]),
                     operand: gen_value(&mut r, 4),
+                    rel: if r.chance(1, 2) { r.range(1, 5) as u8 } else { 0 },
                 },
             });
         }
